@@ -126,6 +126,36 @@ def tebd_registry():
         any order and concurrently (here: f must be a pure function of its argument)"""
         o, f, xs = args
         return [ip.call(f, [x], {}) for x in xs]
+    @model
+    def ex_submit(ip, args, kw):
+        """ASSUMED contract of Executor.submit: a future whose result is f(*args) (f pure here); futures complete in ANY order"""
+        o, f = args[0], args[1]
+        return Obj('Future', {'value': ip.call(f, list(args[2:]), dict(kw))})
+
+    @model
+    def fut_result(ip, args, kw):
+        return args[0].fields['value']
+
+    @model
+    def as_completed(ip, args, kw):
+        """ASSUMED contract of concurrent.futures.as_completed: the given futures, each once, in an arbitrary order
+        (every permutation is explored)"""
+        rest = list(args[0])
+        out = []
+        while len(rest) > 1:
+            k = 0
+            while k < len(rest) - 1 and not ip.choose('completes-next'):
+                k += 1
+            out.append(rest.pop(k))
+        return out + rest
+
+    @model
+    def fut_wait(ip, args, kw):
+        return (list(args[0]), [])
+    R.models['Executor.submit'] = ex_submit
+    R.models['Future.result'] = fut_result
+    R.lib_models['concurrent.futures.as_completed'] = as_completed
+    R.lib_models['concurrent.futures.wait'] = fut_wait
     for nm in ('ThreadPoolExecutor', 'ProcessPoolExecutor'):
         R.lib_models['concurrent.futures.' + nm] = executor_ctor
     R.models['Executor.__enter__'] = ex_enter
